@@ -35,6 +35,9 @@ func c04Alphabet() []explore.Event {
 		ev("cmd", 0, `RENAME m2 m3`),
 		ev("cmd", 0, `RENAME m3 m2`),
 		ev("cmd", 1, `SELECT m2`),
+		ev("cmd", 2, `DELETE m2`),
+		ev("cmd", 2, `CREATE m2`),
+		ev("cmd", 2, `RENAME m2 m3`),
 		conn("create:INBOX"),
 		conn("bump"),
 		{K: "restart"},
